@@ -118,9 +118,12 @@ impl BytesToBytesCodecTraits for ZlibCodec {
         decoded_representation
             .size()
             .map_or(BytesRepresentation::UnboundedSize, |size| {
-                // https://en.wikipedia.org/wiki/Bzip2#Implementation
-                // TODO: Below assumes a maximum expansion of 1.25 for the blocks + header (4 byte) + footer (11 byte), but need to read spec
-                BytesRepresentation::BoundedSize(4 + 11 + size + size.div_ceil(4))
+                // zlib header (2 byte) + adler32 (4 byte) + conservative deflate bound (miniz `mz_deflateBound`)
+                let deflate_bound = std::cmp::max(
+                    128 + size + size.div_ceil(10),
+                    128 + size + (size / (31 * 1024) + 1) * 5,
+                );
+                BytesRepresentation::BoundedSize(2 + 4 + deflate_bound)
             })
     }
 }
